@@ -34,7 +34,11 @@ type ScriptNet struct {
 
 	wg sync.WaitGroup
 
-	QueriesAll   int
+	QueriesAll int
+	// afterQuery, when armed, runs once after the queryLeft-th QueryAllPeers
+	// call from now on returned (all answers delivered).
+	afterQuery   func()
+	queryLeft    int
 	QueriesBatch int
 	BlocksServed int
 
@@ -121,6 +125,29 @@ func isClosed(c chan struct{}) bool {
 	}
 }
 
+// ArmAfterQuery makes the k-th QueryAllPeers call from now on run f right
+// after it returned (f nil disarms). One-shot.
+func (n *ScriptNet) ArmAfterQuery(k int, f func()) {
+	n.mu.Lock()
+	n.afterQuery, n.queryLeft = f, k
+	n.mu.Unlock()
+}
+
+func (n *ScriptNet) queryDone() {
+	n.mu.Lock()
+	var f func()
+	if n.afterQuery != nil {
+		n.queryLeft--
+		if n.queryLeft <= 0 {
+			f, n.afterQuery = n.afterQuery, nil
+		}
+	}
+	n.mu.Unlock()
+	if f != nil {
+		f()
+	}
+}
+
 // QueryAllPeers mimics ChainService.queryAllPeers: the message goes to every
 // connected peer; every message a peer sends back is handed, serially on one
 // goroutine, to checkResponse until that peer's quit channel or the query's
@@ -134,6 +161,7 @@ func (n *ScriptNet) QueryAllPeers(queryMsg wire.Message,
 	n.mu.Lock()
 	n.QueriesAll++
 	n.mu.Unlock()
+	defer n.queryDone()
 	peers := n.active()
 	type stream struct {
 		p    *SimPeer
